@@ -182,6 +182,81 @@ harness! {
     }
 }
 
+harness! {
+    [kani::unwind(10)]
+    fn c13_tinylfu_batch_reset() {
+        // a batch whose keys straddle the end of the aging period: every key of the batch is still
+        // recorded (the ones after the reset count toward the new period)
+        let samples = nd::any_usize_in(1, 3);
+        let mut t = TinyLFU {
+            ctr: crate::sketch::verif_harness::any_sketch(1),
+            doorkeeper: crate::bbloom::verif_harness::any_bloom(6, 1),
+            samples,
+            w: 0,
+        };
+        t.clear();
+        let b = [nd::any_u64(), nd::any_u64(), nd::any_u64(), nd::any_u64()];
+        t.increments(crate::verif_env::kv(&[b[0], b[1], b[2], b[3]]));
+        vassert!(t.w == 4 % samples, "every key of a batch is counted toward the aging period, also across an aging reset inside the batch");
+        if 4 % samples != 0 {
+            // the last key was recorded after the last reset
+            vassert!(t.estimate(b[3]) >= 1, "a key recorded after the aging reset inside a batch is still recorded");
+        } else {
+            vassert!(!t.doorkeeper.contains(b[3]), "a reset at the end of the batch empties the doorkeeper");
+        }
+        vcover!(samples == 3, "reset inside the batch (period 3)");
+        vcover!(samples == 2, "two resets inside the batch");
+    }
+}
+
+/// `TinyLFU::new(n)`: the aging period is num_counters (not the sketch's rounded-up width).
+/// `Bloom::new`'s float sizing cannot be decided by CBMC (nondeterministic libm model): the
+/// doorkeeper is replaced by a literal filter in this harness.
+#[cfg(kani)]
+fn bloom_new_stub(_cap: usize, _ratio: f64) -> Bloom {
+    crate::bbloom::verif_harness::empty_bloom(6, 1)
+}
+#[cfg(kani)]
+fn rng_next_u64_stub(_r: &mut rand::rngs::StdRng) -> u64 {
+    nd::any_u64()
+}
+#[cfg(kani)]
+fn rng_from_seed_stub(_s: [u8; 32]) -> rand::rngs::StdRng {
+    unsafe { std::mem::zeroed() }
+}
+#[cfg(kani)]
+fn now_stub() -> std::time::SystemTime {
+    std::time::UNIX_EPOCH + std::time::Duration::from_secs(nd::any_u64_in(0, 1 << 40))
+}
+
+#[cfg(kani)]
+harness! {
+    [kani::unwind(10),
+     kani::stub(crate::bbloom::Bloom::new, bloom_new_stub),
+     kani::stub(<rand::rngs::StdRng as rand::RngCore>::next_u64, rng_next_u64_stub),
+     kani::stub(<rand::rngs::StdRng as rand::SeedableRng>::from_seed, rng_from_seed_stub),
+     kani::stub(std::time::SystemTime::now, now_stub)]
+    fn c13_tinylfu_new() {
+        let n = nd::any_usize_in(1, 1 << 16);
+        let t = TinyLFU::new(n);
+        vassert!(t.is_ok(), "TinyLFU::new(n >= 1) is Ok");
+        let mut t = t.unwrap();
+        vassert!(t.samples == n && t.w == 0, "all counters are halved after every num_counters recorded accesses (the aging period is num_counters itself)");
+        let k = nd::any_u64();
+        vassert!(t.estimate(k) == 0, "on a fresh estimator every key estimates zero");
+        t.increment(k);
+        if n == 1 {
+            vassert!(t.w == 0 && t.estimate(k) == 0, "with num_counters == 1 every access is followed by a reset");
+        } else {
+            vassert!(t.w == 1 && t.estimate(k) == 1, "one recorded access estimates one");
+        }
+        vcover!(n == 1, "num_counters 1");
+        vcover!(n == 5, "non power of two");
+        vcover!(n == 65536, "largest");
+        std::mem::forget(t);
+    }
+}
+
 // ---------------------------------------------------------------------------------- SampledLFU
 
 /// Arbitrary SampledLFU with up to 3 residents in arbitrary slots satisfying I-P
